@@ -72,6 +72,8 @@ class CSSParser:
         init parameter ``raiseExceptions``
         """
         if parse:
+            # remember global setting of the caller
+            self.__globalRaising = cssutils.log.raiseExceptions
             cssutils.log.raiseExceptions = self.__parseRaising
         else:
             cssutils.log.raiseExceptions = self.__globalRaising
@@ -92,13 +94,15 @@ class CSSParser:
             :class:`~cssutils.css.CSSStyleDeclaration`
         """
         self.__parseSetting(True)
-        if isinstance(cssText, bytes):
-            # TODO: use codecs.getdecoder('css') here?
-            cssText = cssText.decode(encoding)
-        if validate is None:
-            validate = self._validate
-        style = css.CSSStyleDeclaration(cssText, validating=validate)
-        self.__parseSetting(False)
+        try:
+            if isinstance(cssText, bytes):
+                # TODO: use codecs.getdecoder('css') here?
+                cssText = cssText.decode(encoding)
+            if validate is None:
+                validate = self._validate
+            style = css.CSSStyleDeclaration(cssText, validating=validate)
+        finally:
+            self.__parseSetting(False)
         return style
 
     def parseString(
@@ -131,26 +135,29 @@ class CSSParser:
             :class:`~cssutils.css.CSSStyleSheet`.
         """
         self.__parseSetting(True)
-        # TODO: py3 needs bytes here!
-        if isinstance(cssText, bytes):
-            cssText = codecs.getdecoder('css')(cssText, encoding=encoding)[0]
+        try:
+            # TODO: py3 needs bytes here!
+            if isinstance(cssText, bytes):
+                cssText = codecs.getdecoder('css')(cssText, encoding=encoding)[0]
 
-        if validate is None:
-            validate = self._validate
+            if validate is None:
+                validate = self._validate
 
-        sheet = cssutils.css.CSSStyleSheet(
-            href=href,
-            media=cssutils.stylesheets.MediaList(media),
-            title=title,
-            validating=validate,
-        )
-        sheet._setFetcher(self.__fetcher)
-        # tokenizing this ways closes open constructs and adds EOF
-        sheet._setCssTextWithEncodingOverride(
-            self.__tokenizer.tokenize(cssText, fullsheet=True),
-            encodingOverride=encoding,
-        )
-        self.__parseSetting(False)
+            sheet = cssutils.css.CSSStyleSheet(
+                href=href,
+                media=cssutils.stylesheets.MediaList(media),
+                title=title,
+                validating=validate,
+            )
+            sheet._setFetcher(self.__fetcher)
+            # tokenizing this ways closes open constructs and adds EOF
+            sheet._setCssTextWithEncodingOverride(
+                self.__tokenizer.tokenize(cssText, fullsheet=True),
+                encodingOverride=encoding,
+            )
+        finally:
+            # also if e.g. decoding or a fetcher raises
+            self.__parseSetting(False)
         return sheet
 
     def parseFile(
